@@ -8,6 +8,7 @@ import (
 	"io"
 	"math"
 	"os"
+	"runtime"
 	"time"
 
 	"github.com/gogo/protobuf/proto"
@@ -634,7 +635,10 @@ func (s *sim) sign(who string, signBytes []byte, r *simcore.RNG) ([]byte, string
 func voteKey(h int64, r int32, t tmproto.SignedMsgType) string { return fmt.Sprintf("%d/%d/%d", h, r, t) }
 
 // buildHostile turns a spec into wire bytes using the node's state at this instant.
-func (s *sim) buildHostile(op simcore.Op, pm *peerM) *hostileMsg {
+func (s *sim) buildHostile(op simcore.Op, pm *peerM) *hostileMsg { return s.buildHostileX(op, pm, false) }
+
+// buildHostileX: dry = called by the generator to look at the message, nothing is recorded.
+func (s *sim) buildHostileX(op simcore.Op, pm *peerM, dry bool) *hostileMsg {
 	c := s.ctx()
 	r := simcore.NewRNG(uint64(op.Int("seed"))*0x9e3779b97f4a7c15 + 1)
 	f, k := op.Str("f"), op.Str("k")
@@ -876,7 +880,7 @@ func (s *sim) buildHostile(op simcore.Op, pm *peerM) *hostileMsg {
 			sg, w := s.sign(op.Str("sig"), signBytesOf(func() []byte { return types.VoteSignBytes(s.chainID, v) }), r)
 			must(w != "", w)
 			v.Signature = sg
-			if op.Str("sig") == "val2" && op.Str("addr") == "val2" && op.Str("idx") == "val2" && hm.must == "" && pm.live {
+			if op.Str("sig") == "val2" && op.Str("addr") == "val2" && op.Str("idx") == "val2" && hm.must == "" && pm.live && !dry {
 				key := voteKey(H, R, typ)
 				if _, ok := s.val2Sig[key]; !ok {
 					s.val2Sig[key] = bid.Key()
@@ -1124,6 +1128,15 @@ func (s *sim) buildHostile(op simcore.Op, pm *peerM) *hostileMsg {
 		case "addrs":
 			m := &tmp2p.PexAddrs{}
 			n := op.Int("n")
+			// the address book draws from its own crypto-seeded PRNG once buckets overflow, and its
+			// size decides whether outbound peers are asked for addresses (solicited or not): the
+			// book is kept below that threshold (1000) so that runs stay reproducible
+			if n > 900-s.pexAddrs {
+				n = 900 - s.pexAddrs
+			}
+			if !dry && pm.live {
+				s.pexAddrs += n
+			}
 			for i := 0; i < n; i++ {
 				a := tmp2p.NetAddress{ID: fmt.Sprintf("%040x", 5000+r.Intn(100000)), IP: fmt.Sprintf("52.%d.%d.%d", r.Intn(250), r.Intn(250), 1+r.Intn(250)), Port: uint32(1000 + r.Intn(60000))}
 				if i == n/2 {
@@ -1174,7 +1187,7 @@ func (s *sim) buildHostile(op simcore.Op, pm *peerM) *hostileMsg {
 			if base == nil {
 				return nil
 			}
-			b := s.buildHostile(base, pm)
+			b := s.buildHostileX(base, pm, dry)
 			if b == nil {
 				return nil
 			}
@@ -1493,7 +1506,7 @@ func (s *sim) finalChecks() {
 	// 1. the hostile peers leave; nothing of theirs may stay behind
 	for _, idx := range s.order {
 		pm := s.peers[idx]
-		if pm.hostile && pm.live && !pm.pending {
+		if in, run := s.connected(pm); pm.hostile && pm.live && !pm.pending && in && run {
 			pm.left = true
 			s.sw.StopPeerGracefully(pm.sp)
 		}
@@ -1581,9 +1594,31 @@ func (s *sim) finalChecks() {
 		// the sync loop must still be alive and responsive: it ends when told to abort
 		e.Count("probe.statesync_run")
 	}
-	// 5. stop consensus; the WAL it leaves must be readable (the node can restart)
+	// 5. nothing substantial stays buffered on behalf of peers that are gone
+	s.checkRetained()
+	// 6. stop consensus; the WAL it leaves must be readable (the node can restart)
 	if s.consensusRunning() {
 		s.checkWAL()
+	}
+}
+
+// checkRetained: after the hostile peers left (and a collection) the heap may have grown by the
+// node's own history only.
+func (s *sim) checkRetained() {
+	runtime.GC()
+	var m runtime.MemStats
+	runtime.ReadMemStats(&m)
+	grown := int64(m.HeapAlloc) - int64(s.memBase.HeapAlloc)
+	const bound = 64 << 20
+	if grown > bound/2 {
+		s.env.Count("probe.retained_over_half_bound")
+	}
+	if grown > bound {
+		sig := "retained-memory"
+		if s.lastBig != "" {
+			sig += ":after-" + s.lastBig
+		}
+		s.env.Report("C17", sig, "after every hostile peer was removed the node's heap is %d MiB larger than before the first peer joined (bound %d MiB); last message with an attacker-chosen large size: %s", grown>>20, bound>>20, s.lastBigDesc)
 	}
 }
 
